@@ -38,5 +38,7 @@ func C08(c *core.Ctx) {
 			})
 		}
 	}
+	// which declaration a same-named schema is bound to decides which constraints validate it (A-DEDUP)
+	ruleDedup(c)
 	c.Floor("families", c.Counts["members"], 70, "family members")
 }
